@@ -106,7 +106,7 @@ def generate(rng, tier):
 # ----------------------------------------------------------------------------------------------------------------
 
 
-CEILING_S = 10  # >= 50x the slowest instance measured on the unchanged tree (~0.1-0.4 s): only a change of complexity class trips it
+CEILING_S = 10  # CPU seconds of the implementation process (machine load cannot trip it); >= 50x the slowest instance measured on the unchanged tree (~0.1-0.4 s): only a change of complexity class trips it
 
 
 class InstanceTimeout(BaseException):
@@ -230,9 +230,11 @@ def run_impl(cases):
             d = Path(tempfile.mkdtemp(dir=scratch))
             mon = Monitor()
             timed_out = False
-            started = time.monotonic()
+            started = time.process_time()
+            signal.signal(signal.SIGPROF, _on_alarm)
             signal.signal(signal.SIGALRM, _on_alarm)
-            signal.alarm(CEILING_S)
+            signal.setitimer(signal.ITIMER_PROF, float(CEILING_S))
+            signal.alarm(CEILING_S * 30)  # distant wall-clock backstop
             try:
                 files = tygen.definition_files(t)
                 # the analytic in-language attribute `_extent_` of every composite is queried from another definition
@@ -259,10 +261,11 @@ def run_impl(cases):
             except Exception as ex:  # pylint: disable=broad-except
                 fail = "unexpected %s: %s" % (type(ex).__name__, str(ex)[:200])
             finally:
+                signal.setitimer(signal.ITIMER_PROF, 0)
                 signal.alarm(0)
                 mon.close()
                 shutil.rmtree(d, ignore_errors=True)
-            elapsed = time.monotonic() - started
+            elapsed = time.process_time() - started
             if elapsed > CEILING_S - 1 and not timed_out:
                 fail = "instance with capacity scale %d took %.1f s" % (cap, elapsed)
             if timed_out:
